@@ -227,7 +227,13 @@ def placement(ctx):
         st = [i for i, e in enumerate(p.events) if e.kind == 'store' and
               isinstance(e.node, ast.Attribute) and
               e.node.attr == 'last_thickness' and unparse(e.extra) == 'thickness']
+        cr = [i for i, e in enumerate(p.events) if e.kind == 'call' and
+              call_attr(e) == 'create_surface']
         if not ins or not st:
+            bad = p
+        elif cr and min(st) < max(cr):
+            # the new surface would be placed with its own thickness instead
+            # of the thickness given for its predecessor
             bad = p
     if bad is None:
         res.ok('add_surface: insert, then last_thickness := thickness on every '
